@@ -663,13 +663,17 @@ class Interp:
         if op in ("Shr", "ShrUnchecked", "Shl", "ShlUnchecked") and not isinstance(y, int):
             # symbolic shift amount (0 <= y < bits is established by the overflow assert MIR emits):
             # multiplication / division by 2^y through an ite-chain
-            p2 = z3.IntVal(1 << (bits - 1))
-            for j in range(bits - 2, -1, -1):
-                p2 = z3.If(y == j, 1 << j, p2)
-            if op.startswith("Shr"):
-                return I(x / p2, ty)
             xv = x if not isinstance(x, int) else z3.IntVal(x)
-            return I((xv * p2) % mod, ty)
+            # ite-chain over the shift amount with a constant factor in every branch (linear)
+            if op.startswith("Shr"):
+                t = xv / (1 << (bits - 1))
+                for j in range(bits - 2, -1, -1):
+                    t = z3.If(y == j, xv / (1 << j), t)
+                return I(t, ty)
+            t = (xv * (1 << (bits - 1))) % mod
+            for j in range(bits - 2, -1, -1):
+                t = z3.If(y == j, (xv * (1 << j)) % mod, t)
+            return I(t, ty)
         if op in ("Shr", "ShrUnchecked", "Shl", "ShlUnchecked"):
             if op.startswith("Shr"):
                 return I(x >> y if conc else x / (1 << y), ty)
@@ -681,11 +685,30 @@ class Interp:
             for u, w in ((x, y), (y, x)):
                 if op == "BitAnd" and isinstance(w, int) and (w & (w + 1)) == 0:
                     return I(u % (w + 1), ty)
-            bx = z3.Int2BV(x if is_sym(x) else z3.IntVal(x), bits)
-            by = z3.Int2BV(y if is_sym(y) else z3.IntVal(y), bits)
-            r = {"BitAnd": bx & by, "BitOr": bx | by, "BitXor": bx ^ by}[op]
-            return I(z3.BV2Int(r), ty)
+            return I(self.bitop(op, x, y, bits), ty)
         raise Unsupported(f"binop {op}")
+
+    def bitop(self, op, x, y, bits):
+        """AND/OR/XOR of two symbolic non-negative integers through the uninterpreted function
+        band(x,y) = x & y with sound facts about it: 0 <= band <= min(x,y); band = 0 when the
+        operands occupy disjoint bit ranges split at one of the listed positions; band(x,x) = x.
+        OR = x + y - band, XOR = x + y - 2 band.  The exact bit-vector definition is kept aside
+        (ctx.exact_int) for validation runs on concrete inputs."""
+        xv = x if is_sym(x) else z3.IntVal(x)
+        yv = y if is_sym(y) else z3.IntVal(y)
+        f = z3.Function("band", z3.IntSort(), z3.IntSort(), z3.IntSort())
+        a = f(xv, yv)
+        splits = sorted(set(list(range(7, bits, 7)) + [8, 16, 32]))
+        ax = [f(xv, yv) == f(yv, xv), a >= 0, a <= xv, a <= yv, z3.Implies(xv == yv, a == xv),
+              z3.Implies(z3.Or(xv == 0, yv == 0), a == 0)]
+        for k in splits:
+            if k < bits:
+                ax.append(z3.Implies(z3.Or(z3.And(xv < (1 << k), yv % (1 << k) == 0), z3.And(yv < (1 << k), xv % (1 << k) == 0)), a == 0))
+        self.ctx.side += ax
+        if not hasattr(self.ctx, "exact_int"):
+            self.ctx.exact_int = []
+        self.ctx.exact_int.append(a == z3.BV2Int(z3.Int2BV(xv, bits) & z3.Int2BV(yv, bits)))
+        return {"BitAnd": a, "BitOr": xv + yv - a, "BitXor": xv + yv - 2 * a}[op]
 
     def wrap(self, raw, bits, signed=False):
         mod = 1 << bits
